@@ -4,33 +4,33 @@
  * must be equal.  std::sort / QStringList::sort are a concrete (insertion) sort that calls the comparator -- for identities
  * the lowered real identityLessThan --, QString's order is one concrete strict total order on the string values,
  * removeDuplicates keeps first occurrences, QMap is a key-ordered association list, join concatenates. */
-#define BL 4          /* elements per list */
-#define NPOOL 40      /* list values created during one run */
+/* S += (o1 + o2 + ... + ok): one free constructor of the old value and the k operands (keeps the formula small; equal operands
+   give equal results, which is all the comparison of the two runs needs) */
+qstr __CPROVER_uninterpreted_str_appn(qstr s, int n, qstr a0, qstr a1, qstr a2, qstr a3, qstr a4, qstr a5, qstr a6, qstr a7, qstr a8, qstr a9);
+static inline void qstr_append_sb(qstr *s, const QSB *x)
+{
+  *s = __CPROVER_uninterpreted_str_appn(*s, x->n, x->a[0], x->a[1], x->a[2], x->a[3], x->a[4], x->a[5], x->a[6], x->a[7], x->a[8], x->a[9]);
+}
 #define NFIELD 8
 #define NMAP 24
 bool identityLessThan(ident i1, ident i2);
-int gb_pool[NPOOL][BL]; int gb_pool_next;
-static inline int pool_new(void) { MODEL_LIMIT(gb_pool_next >= 0 && gb_pool_next < NPOOL, "bounded stand-in: list pool exhausted"); return gb_pool_next++; }
 static inline int qlst_size(const QLst *l) { return l->n; }
 static inline int qlst_at(const QLst *l, int i)
 {
   __CPROVER_assert(0 <= i && i < l->n && i < BL, "[safety.list_index_in_range] QList element access within the list");
-  return gb_pool[l->id][i];
+  return l->e[i];
 }
 static inline bool order_lt(int order, int a, int b) { return order == CMP_identityLessThan ? identityLessThan(a, b) : qstr_lt(a, b); }
 static inline void l_sort_concrete(QLst *l, int order)
 {
   MODEL_LIMIT(l->n >= 0 && l->n <= BL, "bounded stand-in: list longer than BL");
-  int id = pool_new();
-  for (int i = 0; i < BL; i++) gb_pool[id][i] = i < l->n ? gb_pool[l->id][i] : 0;
   for (int i = 1; i < BL; i++) {
     if (i >= l->n) break;
     for (int j = i; j > 0; j--) {
-      if (!order_lt(order, gb_pool[id][j], gb_pool[id][j - 1])) break;
-      int t = gb_pool[id][j]; gb_pool[id][j] = gb_pool[id][j - 1]; gb_pool[id][j - 1] = t;
+      if (!order_lt(order, l->e[j], l->e[j - 1])) break;
+      int t = l->e[j]; l->e[j] = l->e[j - 1]; l->e[j - 1] = t;
     }
   }
-  l->id = id;
 }
 static inline void std_sort3(QLst *b, QLst *e, int order) { MODEL_LIMIT(b == e, "std::sort over begin()/end() of two different containers"); l_sort_concrete(b, order); }
 static inline void std_sort2(QLst *b, QLst *e) { std_sort3(b, e, ORDER_STR_LT); }
@@ -38,16 +38,16 @@ static inline void qlst_sort(QLst *l) { l_sort_concrete(l, ORDER_STR_LT); }
 static inline int qlst_removeDuplicates(QLst *l)
 {
   MODEL_LIMIT(l->n >= 0 && l->n <= BL, "bounded stand-in: list longer than BL");
-  int id = pool_new(), m = 0;
-  for (int i = 0; i < BL; i++) gb_pool[id][i] = 0;
+  QLst r; int m = 0;
+  for (int i = 0; i < BL; i++) r.e[i] = 0;
   for (int i = 0; i < BL; i++) {
     if (i >= l->n) break;
     bool seen = false;
-    for (int j = 0; j < BL; j++) if (j < m && gb_pool[id][j] == gb_pool[l->id][i]) seen = true;
-    if (!seen) { gb_pool[id][m] = gb_pool[l->id][i]; m++; }
+    for (int j = 0; j < BL; j++) if (j < m && r.e[j] == l->e[i]) seen = true;
+    if (!seen) { r.e[m] = l->e[i]; m++; }
   }
   int removed = l->n - m;
-  l->id = id; l->n = m;
+  r.n = m; *l = r;
   return removed;
 }
 static inline qstr qlst_join(const QLst *l, quint16 sep)
@@ -56,33 +56,34 @@ static inline qstr qlst_join(const QLst *l, quint16 sep)
   for (int i = 0; i < BL; i++) {
     if (i >= l->n) break;
     if (i > 0) s = qs_app(s, sp);
-    s = qs_app(s, gb_pool[l->id][i]);
+    s = qs_app(s, l->e[i]);
   }
   return s;
 }
 /* fields, their values (QVariant = the field it belongs to) and the form */
 enum { VK_INVALID = 0, VK_STRING = 1, VK_STRINGLIST = 2, VK_BOOL = 3 };
-typedef struct BField { qstr key; int kind; qstr s; bool b; int list; int listn; } BField;
+typedef struct BField { qstr key; int kind; qstr s; bool b; QLst list; } BField;
 BField gb_field[NFIELD];
-typedef struct BForm { bool isnull; int fields; int nfields; } BForm;
+typedef struct BForm { bool isnull; QLst fields; } BForm;
 BForm gb_form[2];
 #define FLD(f) gb_field[(f) < 0 || (f) >= NFIELD ? 0 : (f)]
 static inline bool qform_isNull(qform f) { return gb_form[f & 1].isnull; }
-static inline void qform_fields(QLst *r, qform f) { r->id = gb_form[f & 1].fields; r->n = gb_form[f & 1].nfields; }
+static inline void qform_fields(QLst *r, qform f) { *r = gb_form[f & 1].fields; }
 static inline qstr qfield_key(qfield f) { return FLD(f).key; }
 static inline qvar qfield_value(qfield f) { return f; }
 static inline bool qvar_canConvert_QStringList(qvar v) { return FLD(v).kind == VK_STRING || FLD(v).kind == VK_STRINGLIST; }
 static inline void qvar_toStringList(QLst *r, qvar v)
 {
-  if (FLD(v).kind == VK_STRINGLIST) { r->id = FLD(v).list; r->n = FLD(v).listn; }
-  else if (FLD(v).kind == VK_STRING) { int id = pool_new(); for (int i = 0; i < BL; i++) gb_pool[id][i] = 0; gb_pool[id][0] = FLD(v).s; r->id = id; r->n = 1; }
-  else { r->id = 0; r->n = 0; }
+  QLst z; z.n = 0; for (int i = 0; i < BL; i++) z.e[i] = 0;
+  if (FLD(v).kind == VK_STRINGLIST) z = FLD(v).list;
+  else if (FLD(v).kind == VK_STRING) { z.e[0] = FLD(v).s; z.n = 1; }
+  *r = z;
 }
 static inline qstr qvar_toString(qvar v)
 {
   if (FLD(v).kind == VK_STRING) return FLD(v).s;
   if (FLD(v).kind == VK_BOOL) return FLD(v).b ? S("true") : S("false");
-  if (FLD(v).kind == VK_STRINGLIST && FLD(v).listn == 1) return gb_pool[FLD(v).list][0];
+  if (FLD(v).kind == VK_STRINGLIST && FLD(v).list.n == 1) return FLD(v).list.e[0];
   return 0;
 }
 /* QMap<QString, Field>: association list in ascending key order; every update makes a new map value */
@@ -120,9 +121,8 @@ static inline qfield qmap_take(qmap *m, qstr k)
 static inline void qmap_keys(QLst *r, qmap m)
 {
   MODEL_LIMIT(gb_map[m].n <= BL, "bounded stand-in: more than BL keys");
-  int id = pool_new();
-  for (int i = 0; i < BL; i++) gb_pool[id][i] = i < gb_map[m].n ? gb_map[m].k[i] : 0;
-  r->id = id; r->n = gb_map[m].n;
+  for (int i = 0; i < BL; i++) r->e[i] = i < gb_map[m].n ? gb_map[m].k[i] : 0;
+  r->n = gb_map[m].n;
 }
 /* the specification's ghost hooks are not part of this run */
 typedef struct InfoSet { int unused; } InfoSet;
